@@ -237,7 +237,7 @@ namespace Givaro
     inline std::ostream&
     ModularBalanced<double>::write(std::ostream& os, const Element& x) const
     {
-        return os << x;
+        return os << static_cast<int64_t>(x);
     }
 
     inline std::istream&
